@@ -307,6 +307,9 @@ class SynthWorld:
 
         H = self.ctx.H
         res = OpResult("redeclare")
+        if getattr(self, "is_corpus", False):
+            res.error = "corpus"  # the shipped classes are shared by the whole process: never re-declared
+            return res
         reg = self.ref.registered()
         cands = []
         for c in self.spec["classes"]:
@@ -418,7 +421,17 @@ def corpus_directed(tier, per_spec_quick=4, per_spec_thorough=16, base=10**6):
     except BaseException:
         return []
     k = per_spec_quick if tier == "quick" else per_spec_thorough
-    return [{"run_index": base + i * 100 + j, "params": {"corpus": i}} for i in range(n) for j in range(k)]
+    import json
+
+    usable = [i for i in range(n) if '"class:' not in json.dumps(corpus()[0][i][0]["classes"])]
+    return [{"run_index": base + i * 100 + j, "params": {"corpus": i}} for i in usable for j in range(k)]
+
+
+def make_world(ctx, feat, **kw):
+    """the run's world: generated hierarchy, or -- in a directed corpus run -- the real classes of one corpus entry"""
+    if ctx.params.get("corpus") is not None:
+        return corpus_world(ctx, ctx.params["corpus"], feat, **kw)
+    return SynthWorld(ctx, feat=feat, **kw)
 
 
 def corpus_world(ctx, idx, feat, **kw):
